@@ -22,7 +22,7 @@ def run(tier):
     nested = NESTED_QUICK if tier == "quick" else NESTED_THOROUGH
     for (k, n, m, inner) in nested:
         jobs.append(lambda k=k, n=n, m=m, inner=inner: machine_run(k, n, m, "OpsArith", depth=3, mant=53, props=False, inner=inner,
-                                                                   loadset="LoadSetNested",
+                                                                   loadset="LoadSetNestedQuick" if tier == "quick" else "LoadSetNested", workers=4,
                                                                    timeout=1800))
     results = parallel(jobs, max_par=5)
     ref = results[0]
